@@ -560,6 +560,219 @@ def stage_sizes(chk, n):
 
 
 # ----------------------------------------------------------------------------------------
+# part 4: object-level generators (labels of wrapped sub-values; sizes of the subset objects)
+# ----------------------------------------------------------------------------------------
+POSITIVE_DESCRIPTIONS = (
+    "Valid ", "Minimum length string", "Near-boundary", "Maximum length string", "Minimum value", "Maximum value", "Maximum items array",
+    "Enum value", "Const value", "Value null value", "Example value", "Default value", "Object with all required", "Object with only required",
+    "Object with valid",
+)
+NEGATIVE_DESCRIPTIONS = (
+    "Incorrect type", "Value greater than", "Value smaller than", "String smaller than", "String larger than", "Invalid enum value",
+    "Non-multiple", "Value not matching", "Missing required property", "Object with unexpected properties", "Object with invalid",
+    "Array with invalid", "Non-unique items",
+)
+SUBSET_DESC = {"Object with all required properties and '": "OOneOptional", "Object with all required and a subset of optional properties": "OSubset", "Object with only required properties": "OOnlyRequired"}
+
+
+def label_of_description(desc: str) -> str:
+    """The label a sub-value carried, read off the description the wrapper copied."""
+    if desc.startswith(NEGATIVE_DESCRIPTIONS):
+        return "N"
+    if desc.startswith(POSITIVE_DESCRIPTIONS):
+        return "P"
+    return "?" + desc
+
+
+def gen_sub_schema(rng):
+    return rng.choice(
+        [
+            {"type": "string", "minLength": rng.choice([1, 2]), "maxLength": rng.choice([2, 3, 4])},
+            {"type": "integer", "minimum": rng.choice([-3, 1, 2]), "maximum": rng.choice([3, 5, 9])},
+            {"type": "integer"},
+            {"type": "boolean"},
+            {"type": "string", "enum": ["a", "b"]},
+            gen_signed_multiple_schema(rng, safe=True),
+        ]
+    )
+
+
+def gen_object_schema(rng):
+    """Objects with properties / patternProperties (sub-schemas with length and numeric bounds) / additionalProperties (false, {}, true,
+    schema) / required / propertyNames / minProperties / maxProperties in random key order; sometimes an array of such sub-schemas."""
+    if rng.random() < 0.12:
+        s = {"type": "array", "items": gen_sub_schema(rng)}
+        if rng.random() < 0.4:
+            s["maxItems"] = rng.choice([1, 2, 3])
+        return s
+    names = ["a", "b", "c"][: rng.choice([0, 1, 2, 3])]
+    s = {"type": "object"}
+    keys = ["properties"] if names else []
+    for k, p in [("patternProperties", 0.5), ("additionalProperties", 0.45), ("required", 0.5), ("propertyNames", 0.15), ("minProperties", 0.2), ("maxProperties", 0.2)]:
+        if rng.random() < p:
+            keys.append(k)
+    rng.shuffle(keys)
+    for k in keys:
+        if k == "properties":
+            s[k] = {nm: gen_sub_schema(rng) for nm in names}
+        elif k == "patternProperties":
+            s[k] = {pat: gen_sub_schema(rng) for pat in rng.sample(["^x_", "^meta_", "_id$"], rng.choice([1, 1, 2]))}
+        elif k == "additionalProperties":
+            s[k] = rng.choice([False, False, True, {}, gen_sub_schema(rng)])
+        elif k == "required":
+            req = [nm for nm in names if rng.random() < 0.6]
+            if req:
+                s[k] = req
+        elif k == "propertyNames":
+            s[k] = rng.choice([{"maxLength": 8}, {"pattern": "^[a-z_]+$"}, {"minLength": 1}])
+        elif k == "minProperties":
+            s[k] = rng.choice([0, 1, 2, 3])
+        elif k == "maxProperties":
+            s[k] = rng.choice([1, 2, 3, 5])
+    return s
+
+
+def object_region(schema, value, mode, desc) -> str | None:
+    """Listed regions of object-level mislabels, decided by what the model predicts for this value:
+    min_properties (F8): a positive subset object of exactly the size object_subset_sizes plans, smaller than minProperties;
+    additional_properties_empty_schema (F9): the unexpected-property object when additionalProperties is the empty schema."""
+    if not isinstance(schema, dict):
+        return None
+    if mode == "P" and isinstance(value, dict) and isinstance(schema.get("minProperties"), int) and len(value) < schema["minProperties"]:
+        props = schema.get("properties") or {}
+        r = len(set(schema.get("required") or []) & set(props))
+        o = len(props) - r
+        size = len(value)
+        if desc.startswith("Object with only required properties") and size == r:
+            return "min_properties"
+        if desc.startswith("Object with all required properties and '") and size == r + 1:
+            return "min_properties"
+        if desc.startswith("Object with all required and a subset of optional properties") and r + 2 <= size <= r + o - 1:
+            return "min_properties"
+    if mode == "N" and desc == "Object with unexpected properties" and schema.get("additionalProperties") == {} and schema.get("additionalProperties") is not False:
+        return "additional_properties_empty_schema"
+    return None
+
+
+def c_osub(pos, neg):
+    return "{| os_pos := %s; os_neg := %s |}" % (clist([c_mode(m) for m in pos], "mode"), clist([c_mode(m) for m in neg], "mode"))
+
+
+def record_sub(sub):
+    pos, e1 = iterate(sub, "P", location="body")
+    neg, e2 = iterate(sub, "N", location="body")
+    if e1 != "Completed" or e2 != "Completed":
+        return None
+    return [m for _, m, _, _ in pos], [m for _, m, _, _ in neg]
+
+
+def c_object_keys(schema):
+    """The wrapping keys of the schema in dict order, as a Model_C03.okey list; None when a sub-generator cannot be recorded."""
+    keys = []
+    for k, v in schema.items():
+        if k in ("properties", "patternProperties"):
+            subs = []
+            for sub in v.values():
+                rec = record_sub(sub)
+                if rec is None:
+                    return None
+                subs.append(c_osub(*rec))
+            keys.append(f"({'OKProperties' if k == 'properties' else 'OKPatternProperties'} {clist(subs, 'osub')})")
+        elif k == "items" and isinstance(v, dict):
+            rec = record_sub(v)
+            if rec is None:
+                return None
+            keys.append(f"(OKItems {c_osub(*rec)})")
+        elif k == "required":
+            keys.append(f"(OKRequired {cnat(len(v))})")
+        elif k == "additionalProperties":
+            a = "AddlFalse" if v is False else "AddlEmptySchema" if v == {} else "AddlOther"
+            if schema.get("type") in ("object", None) and "pattern" not in schema:
+                keys.append(f"(OKAdditional {a})")
+    return clist(keys, "okey")
+
+
+def impl_object_items(schema, values):
+    """The wrapper / structural values among what cover_schema_iter yielded: [label, via, label of the wrapped sub-value]."""
+    out = []
+    props = list((schema.get("properties") or {}))
+    pats = list((schema.get("patternProperties") or {}))
+    for value, mode, desc, loc in values:
+        if desc.startswith("Object with invalid pattern key '"):
+            pattern = desc.split("' ('", 1)[1].split("') value: ", 1)[0]
+            out.append([mode, ["WPatternProperty", pats.index(pattern)], label_of_description(desc.split("') value: ", 1)[1])])
+        elif desc.startswith("Object with invalid '"):
+            name = desc.split("'")[1]
+            out.append([mode, ["WProperty", props.index(name)], label_of_description(desc.split("' value: ", 1)[1])])
+        elif desc.startswith("Array with invalid items: "):
+            out.append([mode, ["WItems"], label_of_description(desc.split(": ", 1)[1])])
+        elif desc.startswith("Missing required property: "):
+            out.append([mode, ["WRequired", list(schema.get("required") or []).index(desc.split(": ", 1)[1])], None])
+        elif desc == "Object with unexpected properties":
+            out.append([mode, ["WAdditional"], None])
+    return out
+
+
+def stage_objects(chk, n):
+    rng = chk.rng
+    schemas = [json.loads(p.read_text()) for p in sorted((core.VERIF / "corpus" / "C03").glob("obj_*.json"))]
+    schemas += [gen_object_schema(rng) for _ in range(n)]
+    jobs, exprs = [], []
+    for s in schemas:
+        keys = c_object_keys(s)
+        if keys is None:
+            chk.count("object:sub-generator-rejected")
+            continue
+        props = s.get("properties") or {}
+        r = len(set(s.get("required") or []) & set(props))
+        for tag in ("P", "N", "PN"):
+            jobs.append((s, tag, r, len(props) - r))
+            exprs.append(f"(object_negatives ({cbool('P' in tag)}, {cbool('N' in tag)}) {keys}, object_subset_sizes {cnat(r)} {cnat(len(props) - r)})")
+    model = core.coq_eval(IMPORTS, exprs, shard=150)
+    agree = validated = sizes_compared = 0
+    for (s, tag, r, o), (m_items, m_sizes) in zip(jobs, unsym(model)):
+        values, end = iterate(s, tag, location="body")
+        if end != "Completed":
+            chk.count("object:" + end)
+            continue
+        impl = impl_object_items(s, values)
+        mod = [["N" if it["oi_label"] == "Neg" else "P", list(it["oi_via"]) if isinstance(it["oi_via"], tuple) else [it["oi_via"]],
+                None if it["oi_sub"] is None else ("N" if it["oi_sub"][1] == "Neg" else "P")] for it in m_items]
+        chk.seen({"object": s, "modes": tag}, bool(impl) or tag == "P")
+        chk.count(f"object:modes={tag}:" + ",".join(sorted(k for k in s if k not in ("type", "properties"))))
+        ok = impl == mod
+        if not ok:
+            chk.disagree("cover_schema_iter object/array wrappers vs object_negatives", {"schema": s, "modes": tag}, impl, mod)
+        # sizes of the subset objects of _positive_object (schemas whose template holds exactly the declared properties)
+        if ok and "P" in tag and s.get("type") == "object" and set(s) <= {"type", "properties", "required", "minProperties", "maxProperties"}:
+            isz = []
+            for value, mode, desc, _ in values:
+                for prefix, name in SUBSET_DESC.items():
+                    if desc.startswith(prefix) and mode == "P":
+                        isz.append([name, len(value)])
+            msz = [[d, k] for d, k in m_sizes]
+            sizes_compared += 1
+            if isz != msz:
+                ok = False
+                chk.disagree("_positive_object subset sizes vs object_subset_sizes", {"schema": s, "modes": tag}, isz, msz)
+        agree += ok
+        for value, mode, desc, loc in values:
+            if desc in AUTHORED:
+                continue
+            verdict = is_valid(s, value)
+            if verdict is None:
+                continue
+            validated += 1
+            if (mode == "P") != verdict:
+                chk.fail(
+                    f"value labelled {'positive does not conform to' if mode == 'P' else 'negative conforms to'} its schema",
+                    {"schema": s, "modes": tag, "value": repr(value)[:120], "description": desc},
+                    region=object_region(s, value, mode, desc),
+                )
+    chk.stages["correspondence_objects"] = {"schemas": len(schemas), "runs": len(jobs), "agree": agree, "subset_sizes_compared": sizes_compared, "values_validated": validated}
+
+
+# ----------------------------------------------------------------------------------------
 # part 3: case labels
 # ----------------------------------------------------------------------------------------
 LOCS = ["path", "header", "cookie", "query"]
@@ -614,7 +827,9 @@ def gen_operation(rng):
     bodies = []
     for media in rng.choice([[], [], ["application/json"], ["application/json", "text/plain"], ["text/plain", "application/json"]]):
         bodies.append([media, copy.deepcopy(rng.choice(BODY_SCHEMAS if media == "application/json" else [BODY_SCHEMAS[1], {"type": "string"}, {}]))])
-        if media == "application/json" and rng.random() < 0.25:
+        if media == "application/json" and rng.random() < 0.3:
+            bodies[-1][1] = gen_object_schema(rng)
+        elif media == "application/json" and rng.random() < 0.25:
             bodies[-1][1] = rng.choice([gen_signed_multiple_schema(rng), {"type": "object", "properties": {"n": gen_signed_multiple_schema(rng, safe=True)}, "required": ["n"]}])
     method = rng.choice(["post", "put", "get", "patch"])
     others = [m for m in ALL_METHODS if m != method and rng.random() < 0.3]
@@ -1001,7 +1216,7 @@ def operation_value_oracle(chk, ctxs, stats):
                 stats["operation_values_validated"] += 1
                 if (mode == "P") == verdict:
                     continue
-                region = None
+                region = object_region(schema, value, mode, desc)
                 if mode == "P" and k in known and (value, DESC.get(desc, desc)) in known[k][0]:
                     region = known[k][1]
                 chk.fail(
@@ -1071,9 +1286,9 @@ def stage_composite(chk, n):
     rng = chk.rng
     checked = 0
     for _ in range(n):
-        s = gen_composite(rng)
+        s = gen_composite(rng) if rng.random() < 0.5 else gen_object_schema(rng)
         plain = {k: v for k, v in s.items() if k != "nullable"}
-        for tag in ("P", "N"):
+        for tag in ("P", "N", "PN"):
             values, end = iterate(plain, tag, location="body")
             if end != "Completed":
                 chk.count("composite:" + end)
@@ -1087,7 +1302,7 @@ def stage_composite(chk, n):
                 checked += 1
                 chk.seen({"composite": plain, "v": repr(value)[:60], "m": mode}, True)
                 if (mode == "P") != verdict:
-                    chk.fail(f"value labelled {'positive' if mode == 'P' else 'negative'} {'does not conform' if mode == 'P' else 'conforms'}", {"schema": plain, "value": repr(value)[:120], "description": desc}, region=None)
+                    chk.fail(f"value labelled {'positive' if mode == 'P' else 'negative'} {'does not conform' if mode == 'P' else 'conforms'}", {"schema": plain, "modes": tag, "value": repr(value)[:120], "description": desc}, region=object_region(plain, value, mode, desc))
     chk.stages["oracle_composite_schemas"] = {"schemas": n, "values_validated": checked}
 
 
@@ -1142,6 +1357,7 @@ def run(chk: core.Check):
     k = 10 if chk.broken else 1  # a broken proof obligation: search ten times harder for a concrete failing input
     stage_numbers(chk, 2500 if quick else 40000)
     stage_anyof(chk, 300 if quick else 3000)
+    stage_objects(chk, 130 if quick else 1500)
     stage_lengths(chk, 400 if quick else 5000)
     stage_sizes(chk, 250 if quick else 2500)
     stage_cases(chk, (220 if quick else 2600) * (k if quick else 1))
